@@ -32,7 +32,9 @@ def note_line(serial):
     serial[0] += 1
     n = serial[0]
     tags = (" %%u%d" % n if n % 2 else "") + (" #shared" if n % 3 == 0 else "") + (" +solo%d" % n if n % 5 == 0 else "")
-    return "- note%d%s r1" % (n, tags)
+    # every fourth note has a bullet line (with a double space) under its first line
+    more = "\n  * bullet  of note%d" % n if n % 4 == 1 else ""
+    return "- note%d%s r1" % (n, tags) + more
 
 
 def page_text(k, n_notes, serial):
@@ -44,6 +46,14 @@ def page_text(k, n_notes, serial):
 
 def note_lines(text):
     return [i for i, l in enumerate(text.split("\n")) if l.startswith("- ")]
+
+
+def span(lines, i):
+    """number of lines of the note whose first line is lines[i]"""
+    n = 1
+    while i + n < len(lines) and lines[i + n].startswith("  "):
+        n += 1
+    return n
 
 
 def apply_real(d, op, serial, day):
@@ -59,10 +69,11 @@ def apply_real(d, op, serial, day):
             m = re.search(r" r(\d+)$", lines[i])
             lines[i] = lines[i][:m.start()] + " r%d" % (int(m.group(1)) + 1)
         elif tag == "delnote" and op[2] < len(idx):
-            del lines[idx[op[2]]]
+            i = idx[op[2]]
+            del lines[i:i + span(lines, i)]
         elif tag == "addnote":
-            pos = (idx[-1] + 1) if idx else 2
-            lines.insert(pos, note_line(serial))
+            pos = (idx[-1] + span(lines, idx[-1])) if idx else 2
+            lines[pos:pos] = note_line(serial).split("\n")
         elif tag == "header":
             m = re.search(r" v(\d+)$", lines[0])
             lines[0] = lines[0][:m.start()] + " v%d" % (int(m.group(1)) + 1)
@@ -151,6 +162,10 @@ def gen_history(rng, allow_unclean):
             ops.append(["rename", p, nxt]); live.discard(p); live.add(nxt); nxt += 1
         else:
             ops.append(["nextday"])
+    if rng.random() < 0.4 and 1 in live:
+        # the same note edited on two later days (first stamp inserts the date, the second replaces it)
+        j = rng.randint(0, 1)
+        ops += [["reindex", None], ["nextday"], ["editnote", 1, j], ["reindex", None], ["nextday"], ["editnote", 1, j]]
     ops.append(["reindex", None])
     return init, ops
 
